@@ -1,6 +1,5 @@
 """C14 - builders reproduce exactly the appended values; snapshots are immutable (tier L, histories)."""
 import json
-import os
 
 from hypothesis import strategies as st
 
@@ -33,7 +32,7 @@ ASSUMPTIONS = ["initial >= 1 and resize > 1 (documented preconditions of ArrayBu
                "LayoutBuilder: initial >= 16 bytes; only int64/float64/bool/complex128 leaves (the only typed commands pybind exposes)"]
 PLAN = {
     "quick": [{"flavour": "plain", "cases": 3200}, {"flavour": "san", "cases": 800}],
-    "thorough": [{"flavour": "plain", "cases": 96000}, {"flavour": "san", "cases": 24000}],
+    "thorough": [{"flavour": "plain", "cases": 40000}, {"flavour": "san", "cases": 12000}],
 }
 WALL_CAP = {"quick": 900, "thorough": 2700}
 FORK_EACH = True
@@ -90,9 +89,35 @@ def _needs_value(fr):
     return fr.kind in ("tuple", "record") and fr.cur is not None and not fr.fills.get(fr.cur)
 
 
+MONO = ("list", "record", "tuple", "integer", "real", "string", "boolean", "null+list")
+
+
 @st.composite
-def value_command(draw, model, narrays, max_depth, cplx=True):
+def _mono_command(draw, mono):
+    """a top-level value of the one kind a homogeneous history is made of: the builder node at the top then stays a ListBuilder /
+    RecordBuilder / TupleBuilder / StringBuilder / ... (not a UnionBuilder), and that node meets the ill-nested command"""
+    if mono == "list" or (mono == "null+list" and draw(st.integers(0, 3))):
+        return ["beginlist"]
+    if mono == "null+list":
+        return ["null"]
+    if mono == "record":
+        return ["beginrecord", None]
+    if mono == "tuple":
+        return ["begintuple", 2]
+    if mono == "integer":
+        return ["integer", draw(_ints)]
+    if mono == "real":
+        return ["real", draw(_reals)]
+    if mono == "string":
+        return ["string", draw(_text)]
+    return ["boolean", draw(st.booleans())]
+
+
+@st.composite
+def value_command(draw, model, narrays, max_depth, cplx=True, mono=None):
     """one command that puts (or begins) a value at the current position"""
+    if mono is not None and model.depth() == 0:
+        return draw(_mono_command(mono))
     k = draw(st.integers(0, 99))
     deep = model.depth() >= max_depth
     if k < 68 or deep:
@@ -112,7 +137,7 @@ def value_command(draw, model, narrays, max_depth, cplx=True):
 
 
 @st.composite
-def next_command(draw, model, narrays, max_depth, cplx=True):
+def next_command(draw, model, narrays, max_depth, cplx=True, mono=None):
     fr = model.top()
     if fr.kind in ("root", "list"):
         k = draw(st.integers(0, 99))
@@ -122,11 +147,11 @@ def next_command(draw, model, narrays, max_depth, cplx=True):
             return ["snapshot"]
         if k < 34 and fr.kind == "root":
             return ["clear"]
-        if k < 38 and narrays:
+        if k < 38 and narrays and not (mono is not None and fr.kind == "root"):
             return ["extend", draw(st.integers(0, narrays - 1))]
-        return draw(value_command(model, narrays, max_depth, cplx))
+        return draw(value_command(model, narrays, max_depth, cplx, mono))
     if _needs_value(fr):
-        return draw(value_command(model, narrays, max_depth, cplx))
+        return draw(value_command(model, narrays, max_depth, cplx, mono))
     if fr.kind == "tuple":
         todo = [i for i in range(fr.n) if i not in fr.fills]
         if not todo:
@@ -235,8 +260,10 @@ def ab_history(draw, max_steps):
     model = B.BuilderModel([M.decode(d)[1] for d in arrays])
     max_depth = draw(st.sampled_from([1, 2, 3, 3, 4]))
     cplx = draw(st.integers(0, 3)) == 0      # complex values only in a quarter of the histories (several known findings live there)
+    # a quarter of the histories are homogeneous at the top level (see _mono_command)
+    mono = draw(st.sampled_from(MONO)) if draw(st.integers(0, 3)) == 0 else None
     budget = draw(st.integers(1, max_steps))
-    ill_at = draw(st.integers(0, budget)) if draw(st.integers(0, 7)) == 0 else -1
+    ill_at = draw(st.integers(0, budget)) if draw(st.integers(0, 7 if mono is None else 2)) == 0 else -1
     # half of the ill-nested histories wait for an open tuple/record (wrong tuple index, slot filled twice, value without key)
     ill_in_struct = ill_at >= 0 and draw(st.booleans())
     steps = []
@@ -266,12 +293,13 @@ def ab_history(draw, max_steps):
             tail = [["snapshot"], ["clear"], ["snapshot"], ["integer", 1], ["beginlist"], ["real", 0.5], ["endlist"], ["snapshot"]]
             steps.extend(tail[:draw(st.integers(0, len(tail)))])
             break
-        cmd = draw(next_command(model, len(arrays), max_depth, cplx))
+        cmd = draw(next_command(model, len(arrays), max_depth, cplx, mono))
         model.step(cmd)
         steps.append(cmd)
     if model.state == "ok" and draw(st.integers(0, 9)) < 8:
         steps.extend(_closing(model))
     case["ill"] = ill
+    case["mono"] = mono
     case["steps"] = steps
     return case
 
@@ -708,6 +736,8 @@ def run_case(case):
     if model.state != "ok":
         tags.add("ends:" + model.state)
     tags.add("via2:" + via2)
+    if case.get("mono"):
+        tags.add("mono:" + case["mono"] + ("+ill" if case.get("ill") else ""))
     if fast:
         tags.add("fast")
     if layouts:
@@ -861,8 +891,6 @@ def run_lb(case):
     try:
         snap = lb.snapshot()
     except (ValueError, RuntimeError) as e:
-        if not vals:
-            return {"tags": ["lb", "lb:empty_snapshot_refused"], "nontrivial": False}
         raise Violation("lb_snapshot_refused|" + _lb_shape(T), "snapshot raised %s: %s" % (type(e).__name__, str(e)[:300]), observed=str(e)[:300])
     err = snap.validityerror()
     if err is not None:
@@ -931,13 +959,25 @@ def regions(case):
     return out
 
 
+def _has_empty_record(case):
+    """a record or tuple without fields is begun somewhere in the history (syntactic: also after a refused command, where the
+    model no longer follows the builder)"""
+    steps = [c for c in case["steps"] if c[0] != "snapshot"]
+    for i, c in enumerate(steps):
+        if c[0] == "begintuple" and c[1] == 0:
+            return True
+        if c[0] == "beginrecord" and i + 1 < len(steps) and steps[i + 1][0] == "endrecord":
+            return True
+    return "region:empty_record" in regions(case)
+
+
 def pre_exclude(case):
     """histories that die in a finding recorded by another property (counted as excluded_by_finding)"""
     if case.get("kind") != "ab" or not case["arrays"]:
         return None
     used = set(c[1] for c in case["steps"] if c[0] in ("append", "extend"))
-    if any('"UnionArray' in canon(case["arrays"][k]) for k in used) and "region:empty_record" in regions(case):
-        # a record without fields ({}) beside a by-reference array of union type: the snapshot's simplify_uniontype merges
+    if any('"UnionArray' in canon(case["arrays"][k]) for k in used) and _has_empty_record(case):
+        # a record/tuple without fields ({} or ()) beside a by-reference array of union type: the snapshot's simplify_uniontype merges
         # the zero-field RecordArray, which loses its length (known finding zero_field_records of C02) -> heap overflow
         return "zero_field_records"
     return None
